@@ -147,9 +147,21 @@ def run_case(asm, acc, case):
         items, pess = build(rng)
     if case['idx'] % 4 == 0:
         items = randprog.constify(rng, items, 0.15)
+    preseed = None
+    lines = None
+    eol = '\n'
+    if case['idx'] % 3 == 2:
+        names = [it['name'] for it in items if it['k'] == 'label']
+        rng.shuffle(names)
+        preseed = {'labels': {n: 2 * rng.randrange(0, 4000) for n in names}}     # label table re-used from an earlier build
+        acc['ctr']['builds_with_reused_label_table'] += 2
+    elif case['idx'] % 3 == 1:
+        from ..gen import variants
+        lines = variants.vary(rng, items, P.render(items))
+        eol = rng.choice(['\n', '\r\n'])
     for compress in (False, True):
         rcase = dict(case, compress=compress)
-        ex = progcheck.examine(asm, items, compress, seed=case['idx'], nregs=3)
+        ex = progcheck.examine(asm, items, compress, seed=case['idx'], nregs=3, preseed=preseed, lines=lines, eol=eol)
         acc['ctr']['builds'] += 1
         if not ex.ok:
             acc['ctr']['refused'] += 1
